@@ -367,7 +367,7 @@ func (r *BinaryReader) ReadString(n int64) string {
 // ReadByte reads a single byte.
 func (r *BinaryReader) ReadByte() (byte, error) {
 	data := r.ReadBytes(1)
-	if data == nil {
+	if len(data) == 0 {
 		return 0, r.err
 	}
 	return data[0], nil
@@ -376,7 +376,7 @@ func (r *BinaryReader) ReadByte() (byte, error) {
 // ReadUint8 reads a uint8.
 func (r *BinaryReader) ReadUint8() uint8 {
 	data := r.ReadBytes(1)
-	if data == nil {
+	if len(data) == 0 {
 		return 0
 	}
 	return data[0]
